@@ -36,7 +36,8 @@ def strat_sde(draw, tier):
     d = draw(st.sampled_from([1, 1, 2]))
     margins = [draw(chain_model_spec(exp=False, families=("hem", "merton", "vg", "cgmy"),
                                      cgmy_branches=["y<0", "y=0", "0<y<1"] if d > 1 else None)) for _ in range(d)]
-    coef = draw(st.sampled_from(["constant", "diag", "libor", "libor-model"] if d == 1 else ["constant", "diag", "libor"]))
+    coef = draw(st.sampled_from(["constant", "diag", "libor", "libor-model", "forward"] if d == 1
+                                else ["constant", "diag", "libor", "forward"]))
     m = d if coef == "diag" else draw(st.sampled_from([1, 2, 3]))
     case = {"d": d, "margins": margins, "coef": coef, "m": m,
             "x0": [draw(_f(0.2, 2.0)) for _ in range(m)], "const": draw(_f(-1.5, 1.5)),
@@ -44,7 +45,9 @@ def strat_sde(draw, tier):
             "T": draw(_f(0.2, 1.0)), "seed": draw(st.integers(0, 10 ** 6)), "levels": draw(st.integers(0, 2)),
             "h_rel": draw(_f(0.5, 1.5)), "tenor_start": draw(st.sampled_from(["beyond", "inside", "late"])),
             # the same process object simulates this many paths before the one that is checked
-            "paths_before": draw(st.integers(0, 2))}
+            "paths_before": draw(st.integers(0, 2)), "reinit": draw(st.sampled_from([False, False, True])),
+            # the tenor dates are handed over as an array or as a plain list (what the constructors are annotated with)
+            "tenors_as": draw(st.sampled_from(["array", "list"]))}
     if d > 1:
         case["copula"] = {"type": "clayton", "theta": draw(_f(0.5, 3.0)), "eta": draw(_f(0.1, 0.9))}
         case["levels"] = min(case["levels"], 1)
@@ -82,11 +85,15 @@ def _build(case):
         # the Levy Libor model: same coefficient, and an SDE drift that depends on the state (the only such model)
         from rpylib.model.levydrivensde.levylibormodel import LevyLiborModel
 
-        model = LevyLiborModel(libor_rates=np.array(case["x0"], dtype=float) * 0.05, tenors=list(_tenors(case)),
+        model = LevyLiborModel(libor_rates=np.array(case["x0"], dtype=float) * 0.05, tenors=_tenors_arg(case),
                                sigma=np.array(case["sigma"], dtype=float), driver=driver)
         return model, grid, method, driver
+    elif case["coef"] == "forward":
+        from rpylib.model.levydrivensde.levydrivensde import ForwardMarketSDEFunction
+
+        a = ForwardMarketSDEFunction(sigma=np.array(case["sigma"], dtype=float), tenors=_tenors_arg(case))
     else:
-        a = LiborSDEFunction(sigma=np.array(case["sigma"], dtype=float), tenors=_tenors(case))
+        a = LiborSDEFunction(sigma=np.array(case["sigma"], dtype=float), tenors=_tenors_arg(case))
     model = LevyDrivenSDEModel(driver=driver, x0=np.array(case["x0"], dtype=float), a=a)
     return model, grid, method, driver
 
@@ -95,6 +102,11 @@ def _tenors(case):
     """tenors of the Libor-type coefficient: beyond the horizon, or starting inside it (rates then fix along the path)"""
     t0 = {"beyond": 2.0, "inside": 0.4 * case["T"], "late": 0.8 * case["T"]}[case.get("tenor_start", "beyond")]
     return np.linspace(t0, t0 + 1.0, case["m"] + 1)
+
+
+def _tenors_arg(case):
+    t = _tenors(case)
+    return [float(v) for v in t] if case.get("tenors_as") == "list" else t
 
 
 def _euler(times, dW, dL, x0, a, drift_fn, mu):
@@ -123,6 +135,13 @@ def _ref_a(case):
         return lambda t, x: np.diag(np.ravel(x))
     sig = np.array(case["sigma"], dtype=float)
     ten = _tenors(case)
+    if case["coef"] == "forward":
+        # term rate of the period [T_i, T_i+1]: full volatility before T_i, linearly decreasing over the period, none after
+        def a_forward(t, x):
+            g = np.minimum(1.0, np.maximum(0.0, ten[1:] - t) / (ten[1:] - ten[:-1]))
+            return sig * g.reshape(m, 1) * np.ravel(x).reshape(m, 1)
+
+        return a_forward
 
     def a_libor(t, x):
         s_t = sig.copy()
@@ -149,6 +168,20 @@ def body_sde(case):
     drift_holder = {"fn": zero_drift}  # the state-dependent SDE drift of the Levy Libor model is set below
     x0 = np.array(case["x0"], dtype=float) * (0.05 if case["coef"] == "libor-model" else 1.0)
     tag = f"C16/{case['coef']}/driver-d{d}"
+    if case["coef"] in ("libor", "libor-model", "forward"):
+        # the coefficient a(t, x) is a function of (t, x): evaluated in time order on both sides of every tenor date (a few
+        # hours before and after), a rate that has fixed has no volatility from its fixing date on
+        ten = _tenors(case)
+        xx = x0.reshape(m, 1) * 1.3
+        for t_ in sorted([float(T_k) + dt_ for T_k in ten[:-1] for dt_ in (-3e-4, -1e-6, 0.0, 1e-6, 3e-4)]):
+            if t_ < 0:
+                continue
+            got = np.asarray(model.a(t_, xx.copy()), dtype=float).reshape(m, -1)
+            want = np.asarray(a_ref(t_, xx.copy()), dtype=float).reshape(m, -1)
+            if got.shape != want.shape or not np.allclose(got, want, rtol=1e-12, atol=1e-300):
+                out.append(Violation(f"{tag}/coefficient-function-around-a-tenor-date",
+                                     f"a({t_!r}, x) = {got.tolist()} vs {want.tolist()} (tenors {ten.tolist()}); {detail}"))
+                return out
 
     def check_component(name, times, djump, ddiff, mu, X_lib):
         times = np.asarray(times, dtype=float)
@@ -187,7 +220,9 @@ def body_sde(case):
         if case["coef"] == "libor-model":
             # the drift *formula* is the library's; what is checked is that the scheme evaluates it at (t_i, X_i) of the
             # component it advances
-            drift_holder["fn"] = lambda t, x, _p=proc: np.asarray(_p.sde_drift(t, np.asarray(x, dtype=float).reshape(m, 1)), dtype=float)
+            # (the class's function, called on the instance: an attribute of the same name set on the instance would hide it)
+            drift_holder["fn"] = lambda t, x, _p=proc: np.asarray(
+                MarkovChainLevyLiborModel.sde_drift(_p, t, np.asarray(x, dtype=float).reshape(m, 1)), dtype=float)
         beta = driver.blumenthal_getoor_index()
         if not np.isclose(proc.epsilon, grid.h ** beta, rtol=1e-12):
             out.append(Violation(f"{tag}/epsilon-is-not-h-power-beta", f"{proc.epsilon} vs {grid.h ** beta}; {detail}"))
@@ -232,8 +267,16 @@ def body_sde(case):
     pms = [_PM(cs.fine_process.deterministic_path)]
     for _ in range(case["levels"]):
         cs.next_level(1, pms, product)
+    if case.get("reinit"):
+        # the levelled object is initialised again (a second pricing on the same refined coupling): nothing it carries from
+        # the level below may be overwritten by that
+        cs.initialisation(product)
+        cs.pre_computation(1, product)
     if case["coef"] == "libor-model":
-        drift_holder["fn"] = lambda t, x, _p=cs.fine_process: np.asarray(_p.sde_drift(t, np.asarray(x, dtype=float).reshape(m, 1)), dtype=float)
+        from rpylib.process.markovchain.markovchainsde import MarkovChainLevyLiborModel
+
+        drift_holder["fn"] = lambda t, x, _p=cs.fine_process: np.asarray(
+            MarkovChainLevyLiborModel.sde_drift(_p, t, np.asarray(x, dtype=float).reshape(m, 1)), dtype=float)
     captured = {}
     drv = cs.driver_coupling_process
     orig = drv.simulate_one_path_with_coupling
@@ -290,8 +333,9 @@ def body_sde(case):
 
 def classify_sde(case):
     return [case["coef"], f"driver-d={case['d']}", f"m={case['m']}", f"levels={case['levels']}",
-            f"paths-before={case.get('paths_before', 0)}"] + ([f"tenors-{case.get('tenor_start')}"] if case["coef"] == "libor" else []) + \
+            f"paths-before={case.get('paths_before', 0)}"] + ([f"tenors-{case.get('tenor_start')}", f"tenors-as-{case.get('tenors_as', 'array')}"] if case["coef"] in ("libor", "forward", "libor-model") else []) + \
         (["diag/non-positive-initial-value"] if case["coef"] == "diag" and min(case["x0"]) <= 0 else []) + \
+        (["re-initialised-after-refinement"] if case.get("reinit") and case["levels"] >= 1 else []) + \
         sorted({branch_of(s) for s in case["margins"]}), False
 
 
